@@ -50,7 +50,10 @@ def strategy_(draw, tier):
             "eol": draw(st.sampled_from(["lf", "lf", "lf", "crlf", "no_final", "trailing_space"])),
             "order": draw(st.sampled_from(["path_first", "path_first", "date_first"])),
             "secs": draw(st.integers(0, 10 ** 9)), "days": draw(st.sampled_from([0, 1, 7, 400])),
-            "uid": draw(st.sampled_from([1000, 0])), "kind": draw(st.sampled_from(["file", "tree"]))}
+            "uid": draw(st.sampled_from([1000, 0])), "kind": draw(st.sampled_from(["file", "tree"])),
+            # well-formed neighbours in the same trash dir (state kept between entries must not
+            # leak into the reading of the entry under test) and a readdir permutation
+            "neighbours": draw(st.sampled_from([0, 0, 1, 2, 3])), "perm": draw(st.integers(0, 50))}
 
 
 def strategy(tier):
@@ -127,7 +130,13 @@ def make(case):
         text = b" \n".join(lines) + b" \n"
     else:
         text = b"\n".join(lines) + b"\n"
+    neigh = []
+    for i in range(case.get("neighbours", 0)):
+        nd = "20%02d-0%d-1%dT0%d:0%d:0%d" % (30 + i, i + 1, i, i, i + 1, i + 2)
+        neigh.append(tw.add(tdir, base, loc_root + "/w/neighbour-%d" % i, nd, kind="file",
+                            name=["aaa-n0", "zzz-n1", "m-n2"][i], content="neighbour %d" % i))
     ent = tw.add(tdir, base, orig, date, kind=case["kind"], info_bytes=text, name="entry", content="the payload")
+    ent["neigh"] = neigh
     tw.nodes.append({"p": loc_root + "/w", "t": "d"})
     return tw, ent, text, loc_root, tdir
 
@@ -154,24 +163,44 @@ def run_case(case):
                      (["extra"] if case["extra"] else [])) -
                  {"ok", "lf", "std", "abs", "dup_path:None", "dup_date:None"})
     tags = dict(tk=tk, form=case["form"], relative_in_home=(tk == "home_vol" and case["form"].startswith("rel")))
-    out.classes += ["tk:" + tk, "form:" + case["form"]] + ["dev:" + d for d in dev]
+    out.classes += ["tk:" + tk, "form:" + case["form"], "neighbours:%d" % case.get("neighbours", 0)] + \
+        ["dev:" + d for d in dev]
     # ---- list
     sandbox.build_world(spec)
     before = sandbox.snapshot()
-    rl = runner.run(spec, "trash-list", td_opt)
-    m = re.match(r"^(\S{10} \S{8}) (.*)\n$", rl.out, re.S)
+    plan = {"perm_seed": case.get("perm", 0)}
+    rl = runner.run(spec, "trash-list", td_opt, plan=plan)
+    lout = rl.out
+    for nb in ent["neigh"]:
+        line = gen.list_line(nb) + "\n"
+        if line not in lout:
+            out.fail("neighbour_not_listed", "well-formed neighbour %r missing from trash-list: %r" % (
+                line, rl.out[:300]), **tags)
+        lout = lout.replace(line, "", 1)
+    m = re.match(r"^(\S{10} \S{8}) (.*)\n\Z", lout, re.S)
     if not m:
         l_path = l_date = None
-        if rl.out.strip():
-            out.fail("list_unparsable", "trash-list printed %r (stderr %r)" % (rl.out[:200], rl.err[-200:]), **tags)
+        if lout.strip():
+            out.fail("list_unparsable", "trash-list printed %r (stderr %r)" % (lout[:200], rl.err[-200:]), **tags)
     else:
         l_date, l_path = m.group(1), m.group(2)
         if "?" in l_date:
             l_date = None
     # ---- restore
-    rr = runner.run(spec, "trash-restore", td_opt + ["/"], stdin="0\n")
+    r0 = runner.run(spec, "trash-restore", td_opt + ["/"], stdin="", plan=plan)
+    listing = r0.out.split("What file to restore")[0]
+    for nb in ent["neigh"]:
+        listing = re.sub(r"(?m)^ *\d+ " + re.escape(gen.list_line(nb)) + "\n", "", listing, count=1)
+    m0 = re.match(r"^ *(\d+) (None|\S{10} \S{8}) (.*)\n\Z", listing, re.S)
+    idx = m0.group(1) if m0 else "0"
+    rr = runner.run(spec, "trash-restore", td_opt + ["/"], stdin=idx + "\n", plan=plan)
     after = sandbox.snapshot()
-    m = re.match(r"^   0 (None|\S{10} \S{8}) (.*?)\nWhat file to restore", rr.out, re.S)
+    m = None
+    if m0:
+        class _M(object):
+            def group(self, i):
+                return m0.group(i + 1)
+        m = _M()
     r_path = r_date = landed = None
     if m:
         r_date, r_path = (None if m.group(1) == "None" else m.group(1)), m.group(2)
@@ -216,14 +245,14 @@ def run_case(case):
             for delta, expect_kept in ((0, True), (1, False)):
                 now = (d0 + datetime.timedelta(days=days, seconds=delta)).strftime("%Y-%m-%dT%H:%M:%S")
                 sandbox.build_world(spec)
-                runner.run(spec, "trash-empty", td_opt + [str(days)], env={"TRASH_DATE": now})
+                runner.run(spec, "trash-empty", td_opt + [str(days)], env={"TRASH_DATE": now}, plan=plan)
                 kept = ent["info"] in sandbox.snapshot()
                 if kept != expect_kept:
                     out.fail("date_list_vs_empty", "trash-list date %s, `trash-empty %d` at %s %s the "
                              "entry (info %r)" % (l_date, days, now, "kept" if kept else "purged", text), **tags)
         else:
             sandbox.build_world(spec)
-            runner.run(spec, "trash-empty", td_opt + ["0"], env={"TRASH_DATE": "2099-01-01T00:00:00"})
+            runner.run(spec, "trash-empty", td_opt + ["0"], env={"TRASH_DATE": "2099-01-01T00:00:00"}, plan=plan)
             if ent["info"] not in sandbox.snapshot():
                 out.fail("date_list_vs_empty", "no valid date for list/restore but trash-empty 0 "
                          "purged the entry (info %r)" % text, **tags)
@@ -234,14 +263,19 @@ def run_case(case):
         base = loc_root if not tk.startswith("home") else ("/" if tk == "home_root" else None)
         if base is not None or case["form"].startswith("abs"):
             sp, sd = spec_reading(text, base or "/")
-            if sp is not None and fsenc(l_path) != sp:
+            try:
+                sp is None or sp.decode("utf-8")
+                decodable = True
+            except UnicodeDecodeError:
+                decodable = False   # (un-escaped text such as '%aa' decodes to invalid UTF-8)
+            if sp is not None and decodable and fsenc(l_path) != sp:
                 out.fail("spec_path", "commands read %r, the spec reading is %r (info %r)" % (
                     l_path, sp, text), **tags)
             if sd != l_date:
                 out.fail("spec_date", "commands read %r, the spec reading is %r (info %r)" % (
                     l_date, sd, text), **tags)
     if dev:
-        out.key = [dev, tk, case["form"]]
+        out.key = [dev, tk, case["form"], min(case.get("neighbours", 0), 2)]
         out.sample = {"trash_dir": tdir, "info": text.decode("latin-1"), "listed": [l_date, l_path],
                       "restored_to": landed}
     return out
